@@ -38,7 +38,7 @@ NOT_DECIDED = [
     "default wave-vector set: the float test `modf(sqrt(k))[0] == 0` is taken as 'k is a perfect square' (exact for k < 2**52; assumed, see "
     "TRUSTED); onlypositive='z' with ndim=2 and non-bool/str options are not specified by the documentation and not checked",
     "sum rule N S = sum_a N_a S_aa + 2 sum_{a<b} sqrt(N_a N_b) S_ab on the ROUNDED, |q|-averaged numbers of the returned table: it holds "
-    "exactly (over the reals) for the unrounded per-vector values the code computes (= the numbers of _qvectors.csv; clauses sum-rule:*), "
+    "exactly (over the reals) for the unrounded per-vector values the code computes (the values written, formatted %.6f, to _qvectors.csv; clauses sum-rule:*), "
     "on the returned table only up to the 1e-6 rounding of every per-vector value (error bound not chained through the symbolic group mean)",
     "AssertionError of sq.__init__ when particle number or box change between frames (the symbolic trajectory has them constant)",
 ]
@@ -61,7 +61,10 @@ TRUSTED = [
     "choosewavevector: the ghost enumeration S of the finite set D = {p in [-h,h)^d : PSQ(p.p)} in lexicographic order with its inverse "
     "rank(p) = number of members of D before p (closed form, nested counting sums): facts (a) S(r) in D and rank(S(r)) = r for r < |D|, "
     "(b) rank(p) < |D| and S(rank(p)) = p for p in D, (c) S strictly increasing (contracts/C04.py: LexEnum) — the d-dimensional form of the "
-    "engine's boolean-mask selection contract SEL/RANK (pyvc/relops.py); theorems about finite sets, not machine-checked",
+    "engine's boolean-mask selection contract SEL/RANK (pyvc/relops.py).  (a)-(c) are derived from the closed form of rank by the lemma "
+    "obligations cwv:enum:* (base / step per axis: partial sums non-negative and monotone, rank monotone and strict at members, every rank "
+    "below |D| attained by a member; then (a), (b), (c) by pure logic); trusted: induction over one axis coordinate, choice of the witness "
+    "function S, and that the unit's facts are instances of the lemmas' conclusions",
     "choosewavevector: the boolean-mask selections after the loops use the assumed numpy contract of a[mask] (pyvc/relops.py: SEL/RANK, "
     "increasing); the induction principle over one axis for the count-bound lemmas (|D| <= numofq^d: base and step obligations per axis)",
 ]
@@ -333,8 +336,8 @@ class Method(Unit):
         yield f"{name}:returned>=0", gm
 
     def sumrule_goals(self, inp, cols, pervec, inm):
-        """N S = sum_a N_a S_aa + 2 sum_{a<b} sqrt(N_a N_b) S_ab on the UNROUNDED per-vector values the code computes (the numbers of
-        `_qvectors.csv`), chained to the code's own terms:
+        """N S = sum_a N_a S_aa + 2 sum_{a<b} sqrt(N_a N_b) S_ab on the UNROUNDED per-vector values the code computes (the values written,
+        formatted %.6f, to `_qvectors.csv`), chained to the code's own terms:
         (A) rho(s,m) = sum_a rho_a(s,m) by induction over the particles (step obligation; base: empty sums; a particle of type t in 1..K
             contributes to exactly one species mode);
         (B) per frame |rho|^2 = sum_a |rho_a|^2 + 2 sum_{a<b} Re[rho_a conj rho_b]  (ring identity after rewriting rho by (A));
@@ -557,6 +560,25 @@ def _replay_sq(K, d, clause, model, seed, nspecies=None, outfile=False, saveq=Fa
                     return {"ran": True, "failed": True, "searched": tried, "inputs": inputs,
                             "detail": f"column {name}, row {kb} (|q| = {keys[kb]}): got {got[kb]!r}, expected {want[name][kb]!r} "
                                       "(mean over equal |q| of round6(frame average of Re[rho_a conj rho_b]/sqrt(N_a N_b)))"}
+            # diagonal and total columns are non-negative; sum rule within the rounding of the per-vector values (1e-6 each)
+            Ncnt = {a: int((tyf[0] == a).sum()) for a in range(1, K + 1)}
+            wsum = float(N) + sum(Ncnt.values()) + 2 * sum(np.sqrt(Ncnt[a] * Ncnt[b]) for a in range(1, K + 1) for b in range(a + 1, K + 1))
+
+            def sumrule_defect(tab):
+                rhs = sum(Ncnt[a] * tab[f"Sq{a}{a}"] for a in range(1, K + 1)) + \
+                    2 * sum(np.sqrt(Ncnt[a] * Ncnt[b]) * tab[f"Sq{a}{b}"] for a in range(1, K + 1) for b in range(a + 1, K + 1))
+                return np.abs(N * tab["Sq"] - rhs)
+            for name, ab in columns(K):
+                if (ab is None or ab[0] == ab[1]) and not (res[name].values >= 0).all():
+                    return {"ran": True, "failed": True, "searched": tried, "inputs": inputs, "detail": f"column {name} of the returned table has a negative entry"}
+            if K >= 2 and nspecies == K:
+                dfc = sumrule_defect({c: res[c].values for c in res.columns})
+                if (dfc > wsum * 0.5e-6 * (1 + 1e-6) + 1e-9).any():
+                    return {"ran": True, "failed": True, "searched": tried, "inputs": inputs,
+                            "detail": f"sum rule N S = sum N_a S_aa + 2 sum sqrt(N_a N_b) S_ab violated beyond the rounding bound on the returned table: defect {dfc.max()!r}"}
+                dfp = sumrule_defect(per)
+                if (dfp > 1e-9 * wsum).any():
+                    return {"ran": True, "failed": True, "searched": tried, "inputs": inputs, "detail": "sum rule violated by the independent per-vector values (harness error)"}
             if outfile:
                 import pandas as pd
                 back = pd.read_csv(of)
@@ -570,6 +592,8 @@ def _replay_sq(K, d, clause, model, seed, nspecies=None, outfile=False, saveq=Fa
                         and all(np.allclose(bq[nm].values, per[nm], rtol=0, atol=1e-6) for nm, _ in columns(K))
                     if not okq:
                         return {"ran": True, "failed": True, "inputs": inputs, "detail": "_qvectors.csv is not the table of per-vector values"}
+                    if K >= 2 and nspecies == K and (sumrule_defect({c: bq[c].values for c in bq.columns}) > wsum * 0.5e-6 * (1 + 1e-6) + 1e-9).any():
+                        return {"ran": True, "failed": True, "inputs": inputs, "detail": "sum rule violated by the per-vector values of _qvectors.csv (beyond the %.6f format)"}
                 elif os.path.exists(qf):
                     return {"ran": True, "failed": True, "inputs": inputs, "detail": "_qvectors.csv written although saveqvectors is False"}
     finally:
@@ -892,8 +916,10 @@ class LexEnum:
       (b) p in B, V(p)           ->  0 <= RK(p) < CNT, S(RK(p)) = p
       (c) 0 <= r < r' < CNT      ->  S(r) <lex S(r')
     with RK(p) = rank(p) (RK is the same closed form under a function symbol, so that the facts are instantiated per application).
-    (a)-(c) are theorems about finite sets (TRUSTED: not machine-checked); (b)'s bound and CNT <= (2h)^d are also obtained by the
-    induction lemmas of `cwv_lemmas`."""
+    (a)-(c) are theorems about finite sets; they are DERIVED from the closed form `rank` by the lemma obligations of `cwv_enum_lemmas`
+    (partial sums non-negative and monotone, rank monotone and strict at members, every rank below CNT attained: base / step obligations
+    per axis, then (a), (b), (c) by pure logic with S := the witness function of the existence lemma).  What remains trusted is the
+    induction principle over one axis coordinate and the choice of a witness function.  CNT <= numofq^d: `cwv_lemmas`."""
 
     def __init__(self, d, h):
         self.d, self.h = d, h
@@ -1214,12 +1240,142 @@ def cwv_lemmas():
     return out
 
 
+def cwv_enum_lemmas():
+    """The facts (a), (b), (c) of LexEnum derived from the closed form `rank` by explicit induction obligations (induction over one
+    axis coordinate at a time; the induction principle and the choice of a witness function are what remains trusted):
+
+      NN_L    0 <= P_L(pre, j)                           (-h <= j <= h)           base / step over j
+      MONO_L  P_L(pre, j) <= P_L(pre, j2)                (-h <= j <= j2 <= h)     step over j2 (base j2 = j trivial)
+      T_L     R_L(p) + [V(p)] <= below(p[:L])            (p in B)   R_L(p) = sum_{L'>=L} P_L'(p[:L'], p_L'): the rank of p inside the
+              sub-box of its prefix plus one if p is a member does not exceed the number of members of the sub-box  (T_0: rank(p) + [V(p)] <= CNT)
+      M_L0    p[:L0] = q[:L0], p_L0 < q_L0  ->  rank(p) + [V(p)] <= rank(q)       (p, q in B)   monotonicity of rank, strict at members
+      EX_L    base_L(pre) <= r < base_L(pre) + P_L(pre, j)  ->  a member p of D with prefix pre, p_L < j, rank(p) = r exists
+              (witness function W_L(pre, j, r)); base / step over j, the step of level L uses EX_{L+1}(pre + [j], h)
+      (a)     = EX_0((), h) with S(r) := W_0(h, r);   (b), (c): from (a), T_0, NN and M by pure logic (one obligation each)."""
+    out = []
+    for d in (2, 3):
+        n = sv.integer("numofq")
+        h = sv.floordiv(n, 2)
+        E = LexEnum(d, h)
+        lo = E.lo
+        pre_ok = sv.cmp(">=", n, 0)
+        tag = f"cwv:enum:d={d}"
+
+        def inax(x):
+            return sv.and_(sv.cmp(">=", x, lo), sv.cmp("<", x, h))
+
+        def ind(p):
+            return sv.ite(E.valid(p), 1, 0)
+
+        def R(L, p):
+            return _sum([E.partial(list(p[:q]), p[q]) for q in range(L, d)])
+
+        def nn(pre, x):
+            """NN at (pre, x): conclusion of the induction"""
+            return sv.implies(sv.and_(sv.cmp(">=", x, lo), sv.cmp("<=", x, h)), sv.cmp(">=", E.partial(pre, x), 0))
+
+        def mono(pre, x, y):
+            return sv.implies(sv.and_(sv.cmp(">=", x, lo), sv.cmp("<=", x, y), sv.cmp("<=", y, h)), sv.cmp("<=", E.partial(pre, x), E.partial(pre, y)))
+
+        def below_nonneg(pre_j):
+            """below(pre + [j]) >= 0: by its form (an indicator) on the last axis, else NN_{L+1} at the full axis"""
+            return True if len(pre_j) == d else nn(pre_j, h)
+        # ---- NN, MONO
+        for L in range(d - 1, -1, -1):
+            pre = [sv.integer(f"a_{q}") for q in range(L)]
+            j, j2 = sv.integer("j"), sv.integer("j2")
+            out.append((f"{tag}:partial-sums-nonnegative:axis-{L}:base", sv.implies(pre_ok, sv.cmp(">=", E.partial(pre, lo), 0))))
+            out.append((f"{tag}:partial-sums-nonnegative:axis-{L}:step",
+                        sv.implies(sv.and_(pre_ok, inax(j), sv.cmp(">=", E.partial(pre, j), 0), below_nonneg(pre + [j])),
+                                   sv.cmp(">=", E.partial(pre, sv.add(j, 1)), 0))))
+            out.append((f"{tag}:partial-sums-monotone:axis-{L}:step",
+                        sv.implies(sv.and_(pre_ok, sv.cmp(">=", j, lo), sv.cmp("<=", j, j2), sv.cmp("<", j2, h), sv.cmp("<=", E.partial(pre, j), E.partial(pre, j2)),
+                                           below_nonneg(pre + [j2])),
+                                   sv.cmp("<=", E.partial(pre, j), E.partial(pre, sv.add(j2, 1))))))
+        # ---- T_L
+        p = [sv.integer(f"p_{c}") for c in range(d)]
+        q = [sv.integer(f"q_{c}") for c in range(d)]
+        inB = lambda v: sv.and_(*[inax(x) for x in v])
+
+        def T(L, v):
+            return sv.cmp("<=", sv.add(R(L, v), ind(v)), E.below(list(v[:L])))
+        for L in range(d - 1, -1, -1):
+            hyp = [pre_ok, inB(p), mono(list(p[:L]), sv.add(p[L], 1), h)]
+            if L + 1 < d:
+                hyp.append(T(L + 1, p))
+            out.append((f"{tag}:rank-in-sub-box+member<=size-of-sub-box:level-{L}", sv.implies(sv.and_(*hyp), T(L, p))))
+        # ---- M_L0
+
+        def M(L0, u, v):
+            same = [sv.cmp("==", u[c], v[c]) for c in range(L0)]
+            return sv.implies(sv.and_(inB(u), inB(v), *same, sv.cmp("<", u[L0], v[L0])), sv.cmp("<=", sv.add(E.rank_closed(u), ind(u)), E.rank_closed(v)))
+        for L0 in range(d):
+            hyp = [pre_ok, mono(list(p[:L0]), sv.add(p[L0], 1), q[L0])]
+            if L0 + 1 < d:
+                hyp.append(sv.implies(inB(p), T(L0 + 1, p)))
+            hyp += [nn(list(q[:c]), q[c]) for c in range(L0 + 1, d)]
+            out.append((f"{tag}:rank-monotone(strict-at-members):first-difference-at-axis-{L0}", sv.implies(sv.and_(*hyp), M(L0, p, q))))
+        # ---- EX_L
+        I = z3.IntSort()
+        Wf = [z3.Function(f"LEXWIT{d}_{L}", *([I] * (L + 3)), I) for L in range(d)]      # (pre.., j, r, c)
+
+        def W(L, pre, j, r):
+            return [sv.SV(Wf[L](*[sv.znum(x) for x in list(pre) + [j, r, c]])) for c in range(d)]
+
+        def base(L, pre):
+            return _sum([E.partial(list(pre[:c]), pre[c]) for c in range(L)])
+
+        def interval(L, pre, j, r):
+            b = base(L, pre)
+            return sv.and_(sv.cmp("<=", b, r), sv.cmp("<", r, sv.add(b, E.partial(pre, j))))
+
+        def OK(L, pre, j, r, w):
+            return sv.and_(inB(w), E.valid(w), *[sv.cmp("==", w[c], pre[c]) for c in range(L)], sv.cmp("<", w[L], j), sv.cmp("==", E.rank_closed(w), r))
+
+        def EX(L, pre, j, r):
+            return sv.implies(interval(L, pre, j, r), OK(L, pre, j, r, W(L, pre, j, r)))
+        r = sv.integer("r")
+        for L in range(d - 1, -1, -1):
+            pre = [sv.integer(f"a_{c}") for c in range(L)]
+            j = sv.integer("j")
+            box_pre = sv.and_(*[inax(x) for x in pre]) if pre else True
+            out.append((f"{tag}:every-rank-is-attained:axis-{L}:base", sv.implies(sv.and_(pre_ok, box_pre), sv.not_(interval(L, pre, lo, r)))))
+            j1 = sv.add(j, 1)
+            old = interval(L, pre, j, r)
+            # ranks of the old interval: the witness of the induction hypothesis serves (its coordinate L is < j < j+1)
+            out.append((f"{tag}:every-rank-is-attained:axis-{L}:step(old-ranks)",
+                        sv.implies(sv.and_(pre_ok, box_pre, inax(j), EX(L, pre, j, r), old), OK(L, pre, j1, r, W(L, pre, j, r)))))
+            # new ranks: the member (pre, j) itself on the last axis, else the witness of the next level in the sub-box (pre, j)
+            hyp = [pre_ok, box_pre, inax(j), interval(L, pre, j1, r), sv.not_(old)]
+            if L == d - 1:
+                wnew = pre + [j]
+            else:
+                hyp.append(EX(L + 1, pre + [j], h, r))
+                wnew = W(L + 1, pre + [j], h, r)
+            out.append((f"{tag}:every-rank-is-attained:axis-{L}:step(new-ranks)", sv.implies(sv.and_(*hyp), OK(L, pre, j1, r, wnew))))
+        # ---- (a), (b), (c) for S(r) := W_0(h, r)
+        S = lambda x: W(0, [], h, x)
+        a_fact = lambda x, row: sv.implies(sv.and_(sv.cmp(">=", x, 0), sv.cmp("<", x, E.CNT)),
+                                           sv.and_(inB(row), E.valid(row), sv.cmp("==", E.rank_closed(row), x)))
+        out.append((f"{tag}:(a):S(r)-is-a-member-of-rank-r", sv.implies(sv.and_(pre_ok, EX(0, [], h, r)), a_fact(r, S(r)))))
+        Mgen = lambda u, v: sv.and_(*[M(L0, u, v) for L0 in range(d)])
+        rp = E.rank_closed(p)
+        nn_rank = sv.and_(*[nn(list(p[:c]), p[c]) for c in range(d)])
+        hyp_b = [pre_ok, inB(p), E.valid(p), T(0, p), nn_rank, a_fact(rp, q), Mgen(p, q), Mgen(q, p)]
+        out.append((f"{tag}:(b):S(rank(p))=p-and-rank(p)<|D|",
+                    sv.implies(sv.and_(*hyp_b), sv.and_(sv.cmp(">=", rp, 0), sv.cmp("<", rp, E.CNT), *[sv.cmp("==", q[c], p[c]) for c in range(d)]))))
+        r2 = sv.integer("r2")
+        hyp_c = [pre_ok, sv.cmp(">=", r, 0), sv.cmp("<", r, r2), sv.cmp("<", r2, E.CNT), a_fact(r, p), a_fact(r2, q), Mgen(q, p)]
+        out.append((f"{tag}:(c):S-strictly-increasing", sv.implies(sv.and_(*hyp_c), _lex_lt(p, q))))
+    return out
+
+
 UNITS = [Method(K) for K in (5, 4, 3, 2, 1)] + [Dispatch(), SqInit(), ChooseWaveVectorSym()]
 def extra_checks(tier, seed, repo):
     """lemmas on fresh symbols: the algebra behind the sum rule / the sign of the diagonal terms, and the induction lemmas of the default
     wave-vector set (|D| <= numofq^d).  No bounded stand-in is left: choosewavevector is under contract for symbolic numofq."""
     from pyvc.vc import prove_lemmas
-    return {"obligations": prove_lemmas("C04", lemmas() + cwv_lemmas()), "bounded": []}
+    return {"obligations": prove_lemmas("C04", lemmas() + cwv_lemmas()) + prove_lemmas("C04", cwv_enum_lemmas(), opts={"ext": False}), "bounded": []}
 
 
 def replay_extra(rec):
